@@ -28,8 +28,9 @@ def gen_ring(rng, nops):
             else:
                 j = rng.below(3)
                 if j != i and st[j] is not None:
-                    k = rng.below(3)
-                    if k == 0: ops.append("MA,%d,%d" % (i, j)); st[i] = st[j]; st[j] = None
+                    k = rng.below(4)
+                    if k == 3: ops.append("CA,%d,%d" % (i, j)); st[i] = [st[j][0], list(st[j][1])]   # copy-assign onto an unallocated buffer
+                    elif k == 0: ops.append("MA,%d,%d" % (i, j)); st[i] = st[j]; st[j] = None
                     elif k == 1: ops.append("CC,%d,%d" % (i, j)); st[i] = [st[j][0], list(st[j][1])]
                     else: ops.append("MC,%d,%d" % (i, j)); st[i] = st[j]; st[j] = None
             continue
